@@ -486,6 +486,26 @@ func TestC16(t *testing.T) {
 			}
 		}
 	}
+	// the same questions in scrambled order: a dense window of days (each shard its own 800 days around 2022-2031,
+	// shard 0 also AD 14-19) is asked again in generated permutations — the oracle is unchanged, only what was asked
+	// just before is new
+	{
+		start := ref.JDN(2022, 1, 1) + ev.Shard*200
+		if ev.Shard == 0 {
+			start = ref.JDN(14, 6, 1)
+		}
+		for pi, perm := range ev.Shuffled(800, ev.Pick(3, 12), 16) {
+			for _, k := range perm {
+				j := start + k
+				yy, mm, dd := ref.FromJDN(j)
+				if (k+pi)%2 == 0 {
+					dayRules.Eval(dayCase{j})
+				} else {
+					hourRule.Eval(hourCase{ref.DT{Y: yy, M: mm, D: dd, H: []int{9, 0, 23, 15}[(k/2)%4], Mi: 30}})
+				}
+			}
+		}
+	}
 	dayRules.Rapid(ev.Share(ev.Pick(12000, 160000)), func(t *rapid.T) dayCase {
 		y := gen.Year(t, 1, 9998)
 		ts := gen.Terms(y)
